@@ -1,6 +1,7 @@
 import Driver.Srv
 import Driver.Rd
 import Driver.Wr
+import Driver.Pl
 /-! `driver <suite>`: reads a transcript on stdin, prints the model's `obs` line for every `op` line. -/
 
 partial def loopSrv (h : IO.FS.Stream) (out : IO.FS.Stream) (st : Driver.Srv.St) : IO Unit := do
@@ -21,6 +22,15 @@ partial def loopRd (h : IO.FS.Stream) (out : IO.FS.Stream) (st : Driver.Rd.St) :
   | none => pure ()
   loopRd h out st'
 
+partial def loopPl (h : IO.FS.Stream) (out : IO.FS.Stream) (st : Driver.Pl.St) : IO Unit := do
+  let line ← h.getLine
+  if line.isEmpty then return ()
+  let (st', o) := Driver.Pl.handle st line
+  match o with
+  | some l => out.putStrLn l
+  | none => pure ()
+  loopPl h out st'
+
 partial def loopStateless (h : IO.FS.Stream) (out : IO.FS.Stream) (f : String → Option String) : IO Unit := do
   let line ← h.getLine
   if line.isEmpty then return ()
@@ -35,5 +45,6 @@ def main (args : List String) : IO UInt32 := do
   match args with
   | ["srv"] => loopSrv stdin stdout {}; return 0
   | ["reader"] => loopRd stdin stdout {}; return 0
+  | ["pool"] => loopPl stdin stdout {}; return 0
   | ["writer"] => loopStateless stdin stdout Driver.Wr.handle; return 0
   | _ => IO.eprintln "usage: driver <suite>"; return 2
